@@ -16,8 +16,8 @@ from stdmodel import make_vector
 import squidsmodel as sm
 
 
-def solver_with_grid(db, nx, classes=None, strict=False):
-    order = sm.OrderOracle(classes, strict=strict) if classes is not None else None
+def solver_with_grid(db, nx, classes=None, strict=False, witness=None):
+    order = sm.OrderOracle(classes, strict=strict, witness=witness) if classes is not None else None
     hooks = sm.SquidsHooks(2, order=order)
     this, hooks, it = sm.new_solver(db, nx, 2, 1, 0, hooks=hooks)
     return this, hooks, it
@@ -151,17 +151,24 @@ def check_lookup(db, rep, tier):
     shape_bad = None
     for nx in range(2, nmax + 1):
         nodes = ['X%d' % k for k in range(nx)]
-        positions = [('below', [['Q']] + [[x] for x in nodes], None)]
+        from mpmath import mpf
+        vals = {x: mpf(1.5) + mpf(k) * mpf('1.25') + mpf(k * k) / 8 for k, x in enumerate(nodes)}  # a concrete, non-uniform instance
+        lo, hi = vals[nodes[0]], vals[nodes[-1]]
+        positions = [('below', [['Q']] + [[x] for x in nodes], None, None),
+                     ('below by one ulp', [['Q']] + [[x] for x in nodes], None, dict(vals, Q=lo * (1 - mpf(2) ** -53))),
+                     ('below, far', [['Q']] + [[x] for x in nodes], None, dict(vals, Q=lo - 1))]
         for k in range(nx):
             cl = [[x] for x in nodes]
             cl[k] = [nodes[k], 'Q']
-            positions.append(('on node %d' % k, cl, [b for b in (k - 1, k) if 0 <= b <= nx - 2]))
+            positions.append(('on node %d' % k, cl, [b for b in (k - 1, k) if 0 <= b <= nx - 2], None))
             if k < nx - 1:
-                positions.append(('between %d and %d' % (k, k + 1), [[x] for x in nodes[:k + 1]] + [['Q']] + [[x] for x in nodes[k + 1:]], [k]))
-        positions.append(('above', [[x] for x in nodes] + [['Q']], None))
-        for label, classes, ok_idx in positions:
+                positions.append(('between %d and %d' % (k, k + 1), [[x] for x in nodes[:k + 1]] + [['Q']] + [[x] for x in nodes[k + 1:]], [k], None))
+        positions.append(('above', [[x] for x in nodes] + [['Q']], None, None))
+        positions.append(('above by one ulp', [[x] for x in nodes] + [['Q']], None, dict(vals, Q=hi * (1 + mpf(2) ** -52))))
+        positions.append(('above, far', [[x] for x in nodes] + [['Q']], None, dict(vals, Q=hi + 1)))
+        for label, classes, ok_idx, witness in positions:
             n += 1
-            this, hooks, it = solver_with_grid(db, nx, classes, strict=True)
+            this, hooks, it = solver_with_grid(db, nx, classes, strict=True, witness=witness)
             xv = this.value.fields['x'].value
             for k in range(nx):
                 xv.fields['data'].value.cell(k).value = Poly.var('X%d' % k)
